@@ -6,4 +6,4 @@ NONTRIVIAL = {"C01": ["dec_ok", "key_creations"], "C02": ["faulted_ops", "key_cr
               "C09": ["key_creations", "faulted_ops", "metastore_reads"], "C10": ["metastore_reads", "dec_ok"], "C20": ["enc_ok", "dec_ok"]}
 
 def run(ctx):
-    return envelope.run(ctx, "C20", ["AsherahVerif.Props.C20"], NONTRIVIAL["C20"])
+    return envelope.run(ctx, "C20", ["AsherahVerif.Props.C20"], NONTRIVIAL["C20"], modes=(('boundaries',), ('allboundaries',)))
